@@ -9,7 +9,8 @@ def run(ctx, repo):
         'Equality with what pickle protocol 2 rebuilds is value-level over arbitrary classes and is NOT decided. Decided: writer '
         'and reader speak the same protocol - every tag or tag prefix Representer can emit has an entry in the tables of the '
         'unsafe loaders accepting the node kind written (R-TAG-VOCAB-PYTHON); the state keys written are keys read, list items '
-        'are applied by extend and dict items by item assignment, constructor arguments are built deep (R-FIELD-VOCAB); of '
+        'are applied by extend and dict items by item assignment, constructor arguments are built deep (R-FIELD-VOCAB); both halves of a (dict, slots) state pair are applied on every '
+        'path of set_python_instance_state (R-STATE-APPLIED, a must-use dataflow rule); of '
         'those tags exactly tuple/complex/name are in the Full tables (R-TABLE-CLOSED(Full)); alias keys are ids of kept-alive '
         'objects (R-ALIAS-KEY); the recursion guard that turns cycles through arguments/__setstate__ into ConstructorError '
         '(R-CONSTRUCT-CACHE).')
@@ -17,6 +18,7 @@ def run(ctx, repo):
     RR2.r_tag_vocab(ctx, repo, ['dumper.Dumper', 'cyaml.CDumper'], ['loader.UnsafeLoader', 'loader.Loader',
                                                                      'cyaml.CUnsafeLoader', 'cyaml.CLoader'], 'R-TAG-VOCAB-PYTHON')
     RR2.r_field_vocab(ctx, repo)
+    RR2.r_state_applied(ctx, repo)
     RR.r_table_closed(ctx, repo, RR.table_groups_full() + [
         ('unsafe', RR.UNSAFE_LOADERS, RR.CORE_TAGS | {None} | RR.FULL_EXTRA, RR.UNSAFE_MULTI)])
     RR2.r_alias_key(ctx, repo)
